@@ -184,6 +184,11 @@ def check_encoder_kind(c, repo):
             oneshot = enc is not None and [k for k in calls_in(enc.node) if (callee_last(k) == 'encode' and isinstance(k.func, ast.Attribute) and
                                                                               isinstance(k.func.value, ast.Name) and k.func.value.id in enc.params)
                                            or dotted(k.func) == 'codecs.encode']
+            delegates = enc is not None and [k for k in calls_in(enc.node) if callee_last(k) == 'encode' and isinstance(k.func, ast.Attribute)
+                                             and isinstance(k.func.value, ast.Attribute) and isinstance(k.func.value.value, ast.Name) and k.func.value.value.id == 'self']
+            if oneshot and delegates:
+                raise AnalysisError('%s: encodes through an encoder object it holds (%s) AND has a one-shot path (%s): under which conditions the one-shot path '
+                                    'is taken, and whether it is equivalent there, cannot be decided' % (enc.qual, norm(delegates[0])[:40], norm(oneshot[0])[:40]))
             if oneshot:
                 c.bad(enc, oneshot[0], 'every send is encoded on its own (%s): a stateful codec then emits its start-of-stream bytes (BOM) on every send, '
                       'the peer does not receive the encoding of the concatenated arguments' % norm(oneshot[0]), kind='flow', tag='encoder:' + norm(n.value)[:40])
